@@ -3,6 +3,8 @@
 Bounded-exhaustive enumeration (same filter/apex space as C01's serial half) against the
 reference quadtree, plus the position algebra on every pair of positions to a depth bound.
 """
+import numpy as np
+
 from vt import par, stages
 from vt.fixtures import quiet, rng_order
 from vt.harness import Part, Report
@@ -10,6 +12,18 @@ from vt.ref import quadtree
 from checks import c01
 
 PROP = "C13"
+
+
+_REF_TILES = {}
+
+
+def _ref_tile(n, x, y, planetary):
+    k = (n, x, y, planetary)
+    if k not in _REF_TILES:
+        from vt.ref import toastgeom as tg
+
+        _REF_TILES[k] = tg.single(n, x, y, planetary)
+    return _REF_TILES[k]
 
 
 def check_case(kind, depth, acc, apex, cs, part, full_cache):
@@ -63,6 +77,38 @@ def check_case(kind, depth, acc, apex, cs, part, full_cache):
                 bad("leaf-tile", "generic pyramid delivered a tile object")
         elif depth >= 1 and (tile is None or tuple(tile.pos) != pos):
             bad("leaf-tile", "leaf %r delivered with tile %r" % (pos, tile))
+        elif depth >= 1:
+            # the tile handed over is the tile of that position in the pyramid's coordinate system
+            from vt.ref import toastgeom as tg
+
+            c, inc = _ref_tile(pos[0], pos[1], pos[2], cs == "planetary")
+            v = tg.vec(np.array([float(q[0]) for q in tile.corners]), np.array([float(q[1]) for q in tile.corners]))
+            if tg.angdist(v, c).max() > 1e-9 or bool(tile.increasing) != inc:
+                bad("leaf-tile-geometry", "leaf %r delivered with corners %.3g rad away from its own tile's (coordinate system %s)" % (pos, tg.angdist(v, c).max(), cs or "astronomical"))
+                break
+    # a request the pyramid must refuse (apex deeper than the pyramid) leaves the instance unchanged
+    try:
+        with quiet():
+            from toasty.pyramid import Pos
+
+            inst = stages.make_pyramid(kind, depth, acc, None, cs)
+            refused = False
+            try:
+                inst.subpyramid(Pos(depth + 1, 0, 0))
+            except ValueError:
+                refused = True
+            if refused:
+                full_model = stages.ref_model(kind, depth, acc, None)
+                got = (inst.count_leaf_tiles(), inst.count_live_tiles(), inst.count_operations())
+                if got != full_model.counts():
+                    bad("history/refused-subpyramid-changes-instance", "after a refused subpyramid() call the counts are %r, a fresh instance gives %r" % (got, full_model.counts()))
+                elif apex != (0, 0, 0):
+                    inst.subpyramid(Pos(*apex))
+                    got = (inst.count_leaf_tiles(), inst.count_live_tiles(), inst.count_operations())
+                    if got != (n_leaf_ref, n_live_ref, n_ops_ref):
+                        bad("history/refused-subpyramid-changes-instance", "a legal subpyramid() after a refused one gives counts %r, expected %r" % (got, (n_leaf_ref, n_live_ref, n_ops_ref)))
+    except Exception as e:
+        bad("history/raises-after-refused-subpyramid:%s" % type(e).__name__, repr(e))
     if acc is None:
         sub = depth - apex[0]
         closed = (tiles_at_depth(sub), depth2tiles(sub), depth2tiles(sub - 1) if sub >= 1 else 0)
@@ -208,6 +254,12 @@ def run(tier, seed):
     )
     rep.assumptions = ["depth-2 filters are exhaustive (17^4, both coordinate systems in thorough); depth-3 filters are exhaustive inside each single level-1 quadrant (thorough)"]
     cases = c01.e2_cases(tier)
+    # the planetary system for the 51-filter family and unfiltered pyramids (all apexes)
+    for f in c01.family51():
+        for a in c01.all_apexes(2)[:: (1 if tier == "thorough" else 4)]:
+            cases.append(("filtered", 2, f, a, "planetary", False))
+    for d in (1, 2):
+        cases.append(("toast", d, None, (0, 0, 0), "planetary", False))
     if tier == "thorough":
         cases = cases + c01.e2_extra_cases()
     cases = rng_order(cases, seed)
